@@ -1,5 +1,8 @@
 import ChipFiring.Properties.C01
+import ChipFiring.Properties.C02
 import ChipFiring.Properties.C05
 import ChipFiring.Properties.C06
+import ChipFiring.Properties.C08
+import ChipFiring.Properties.C09
 import ChipFiring.Properties.C12
 import ChipFiring.Properties.C13
